@@ -703,8 +703,8 @@ def stage_bounds(ctx, rec, exprs, metas):
     fitted value has to stay inside the prior's bounds"""
     import numpy as np
     rng = ctx.subrng("bounds")
-    for k in range(ctx.n(2, 10)):
-        skind = ["nmpfit", "scipy"][k % 2]
+    for k in range(ctx.n(3, 12)):
+        skind = ["nmpfit", "scipy", "scipy"][k % 3]
         pb = gen_problem(rng, "mie", "uniform", size=12)
         which = rng.choice(["r", "alpha", "center.2"])
         t = pb["truth"][which]
@@ -713,7 +713,9 @@ def stage_bounds(ctx, rec, exprs, metas):
         g = (lo + hi) / 2
         pb["start"] = dict(pb["truth"])
         pb["start"][which] = g
-        kind = rng.choice(["U", "B"])
+        # the scipy strategy has no bound handling of its own (the prior's z-score is what keeps it inside): both an
+        # all-Uniform model and one with an informative (BoundedGaussian) prior, every run
+        kind = rng.choice(["U", "B"]) if skind == "nmpfit" else ["U", "B"][(k // 3 + k % 3) % 2]
         model = build_model(pb, pb["start"], {which: dict(kind=kind, lo=lo, hi=hi, sd=0.05 * t)})
         data = make_data(pb)
         strategy = make_strategy(skind, None)
